@@ -188,7 +188,7 @@ func (c *simConn) Read(p []byte) (int, error) {
 				max = len(p)
 			}
 			n := max
-			if max > 1 && c.n.e.Choose("io", 3) == 0 {
+			if max > 1 && c.n.e != nil && c.n.e.Choose("io", 3) == 0 {
 				n = 1 + c.n.e.Choose("io", max)
 				if n < max {
 					c.n.e.Fault("short_read")
